@@ -665,8 +665,8 @@ def handle(line: str) -> str:
             import sys as _sys
 
             def prof(frame, event, arg):
-                if event == "call" and "metasequoia_sql" in frame.f_code.co_filename:
-                    st["pycalls"] += 1
+                if event in ("call", "c_call") and "metasequoia_sql" in frame.f_code.co_filename:
+                    st["pycalls"] += 1                      # Python-level calls and calls of builtins made by library code
             st["pycalls"] = 0
             try:
                 _sys.setprofile(prof)
